@@ -502,8 +502,17 @@ static std::vector<Snap> read_all(const std::string &file, Topology &top, size_t
   return out;
 }
 
+// VV_C08_TOLSCALE (default 1) scales the format tolerances: a self-test of the harness.  With 0.4 every round-trip sub
+// must fail (the rounding error of a correct writer reaches 0.5 units of the last printed digit), which shows that the
+// comparisons are live and the tolerances are not loose.
+static double tolscale() {
+  static double s = getenv("VV_C08_TOLSCALE") ? atof(getenv("VV_C08_TOLSCALE")) : 1.0;
+  return s;
+}
 static bool within(double got, double exp, double abs_tol, double rel_tol) {
   if (!(std::isfinite(got))) return false;
+  abs_tol *= tolscale();
+  rel_tol *= tolscale();
   double tol = abs_tol * (1 + 1e-9) + rel_tol * std::fabs(exp) * (1 + 1e-6) + 16 * DBL_EPSILON * std::fabs(exp);
   return std::fabs(got - exp) <= tol;
 }
